@@ -19,7 +19,7 @@
 From Coq Require Import Permutation Sorted.
 Require Import Cirbo.Model.Base Cirbo.Model.Gate Cirbo.Model.Circuit Cirbo.Model.Eval.
 
-Definition bvec := list bool.
+Notation bvec := (list bool) (only parsing).
 Definition bvec_eqb : bvec -> bvec -> bool := all_eqb Bool.eqb.
 
 (* ================================================================== *)
